@@ -296,6 +296,52 @@ def compute (src : Array α) (rowMajor : Bool) (n : Int) (uplo : Int) (shift alp
 
 def Fact.info' (f : Fact α) : Int := f.info
 
+/-! ### object reuse: `compute` on an object that already went through any history
+
+  What `BKLDLT::compute` does to the members before `copy_data` (BKLDLT.h, top of `compute`), statement by statement:
+    `m_n = mat.rows()`                        overwritten;
+    `m_perm.setLinSpaced(m_n, 0, m_n - 1)`    overwritten, ALL `m_n` entries (unconditionally: the no-interchange 1x1 path and the
+                                              last 1x1 block never write `m_perm[k]` and rely on this identity);
+    `m_permc.clear()`                         emptied (the translated `compress_permutation` appends to `[]`);
+    `m_data.resize(m_n (m_n + 1) / 2)`        NOT cleared: Eigen keeps the buffer, with its stale contents, when the size is
+                                              unchanged and hands out indeterminate memory otherwise;
+    `compute_pointer()`                       `m_colptr` rebuilt from `m_n` (the model's `colptr n j` is a function of `n`);
+    `m_info = Successful`                     overwritten (translated `compute_init_info`); `m_computed = true`.
+  `computeFrom prev` is `compute` started from exactly that: everything reset except the packed array, which is the previous
+  object's array (same size) resp. its stale prefix (size changed; any other content is covered by `copy_data_overwrites`).
+  `C10.c10_compute_history_independent` proves that the result does not depend on `prev`: `copy_data` overwrites every entry. -/
+
+/-- the members of a default-constructed object `BKLDLT()` -/
+def freshFact : Fact α := { s := { n := 0, data := #[], perm := #[], ok := true }, info := NotComputed, permc := [], tags := [] }
+
+/-- `m_data.resize(size)` on a dynamic Eigen vector: same size -> the old buffer with its old contents; otherwise new memory,
+    modelled with the worst plausible content (the stale prefix of the old buffer, zero beyond) -/
+def resizeData (old : Array α) (size : Nat) : Array α :=
+  if old.size = size then old else (Array.range size).map (fun (i : Nat) => old.getD i zero)
+
+/-- `m_perm.setLinSpaced(n, 0, n - 1)` -/
+def linSpaced (n : Int) : Array Int := (Array.range n.toNat).map (fun (i : Nat) => (i : Int))
+
+/-- the storage of the object when `compute(mat, uplo, shift)` reaches `copy_data`, `prev` being the storage left by whatever
+    was done with the object before; `ok` is the per-call access flag of the model (a ghost, restarted with the call) -/
+def enterSt (prev : St α) (n : Int) : St α :=
+  { n := n, data := resizeData prev.data (packedSize n).toNat, perm := linSpaced n, ok := true }
+
+/-- `compute(mat, uplo, shift)` called on an object in state `prev` (the statements after the resets are those of `compute`) -/
+def computeFrom (prev : Fact α) (src : Array α) (rowMajor : Bool) (n : Int) (uplo : Int) (shift alpha : α) : Fact α :=
+  let s := copy_data (enterSt prev.s n) src rowMajor uplo shift
+  let info := compute_init_info prev.info
+  let (k, info, s, tags) := computeLoop alpha n.toNat 0 info s []
+  let (akk, s) : α × St α :=
+    if k = n - 1 then
+      let (d, s) := s.get k k
+      let a := scalarop_real d
+      (a, s.wr k k a)
+    else (zero, s)
+  let info := compute_final_info n k info akk
+  let permc := compress_permutation (fun i => s.perm.getD i.toNat 0) n
+  { s := s, info := info, permc := permc, tags := tags }
+
 /-! ### solve_inplace -/
 
 structure Sv (α : Type) where
@@ -407,6 +453,31 @@ def solve_inplace (f : Fact α) (b : Array α) : Sv α :=
   applyPermc v f.permc.reverse
 
 def solve (f : Fact α) (b : Array α) : Array α := (solve_inplace f b).x
+
+/-! ### `DenseSymShiftSolve` (MatOp/DenseSymShiftSolve.h) as an object with a history
+
+  Members: the referenced matrix (`m_mat`, a `Ref`: the memory of the caller's matrix), `m_n`, `m_solver`.  There is NO other
+  state: in particular nothing remembers which shifts were asked for before or how those attempts ended. -/
+structure DenseShift (α : Type) where
+  n : Int
+  mat : Array α
+  rowMajor : Bool
+  uplo : Int
+  solver : Fact α
+
+/-- the constructor: `m_solver` is default-constructed -/
+def DenseShift.ctor (mat : Array α) (rowMajor : Bool) (n uplo : Int) : DenseShift α :=
+  { n := n, mat := mat, rowMajor := rowMajor, uplo := uplo, solver := freshFact }
+
+/-- `set_shift(sigma)`: `m_solver.compute(m_mat, Uplo, sigma)` on the SAME `m_solver` object, then the translated throwing check
+    (`Gen.BK.dense_set_shift_guard`).  The factorization is stored before the check, so the object holds the failed one after a throw.
+    `SymEigsShiftSolver`'s constructor is this call with its `sigma` argument. -/
+def DenseShift.set_shift (w : DenseShift α) (sigma alpha : α) : Res Unit × DenseShift α :=
+  let f := computeFrom w.solver w.mat w.rowMajor w.n w.uplo sigma alpha
+  (dense_set_shift_guard f.info, { w with solver := f })
+
+/-- `perform_op(x, y)`: `y = m_solver.solve(x)` -/
+def DenseShift.perform_op (w : DenseShift α) (x : Array α) : Array α := solve w.solver x
 
 end
 end BKLDLT
